@@ -41,7 +41,9 @@ Definition cfg_sane (cfg : config) : bool :=
      (sempty (c_clientip cfg) || negb (beq rid cih)) &&
      (sempty (c_tlsheader cfg) || negb (beq rid th))).
 
-(* ---- finding regions (predicates on INPUTS) ---- *)
+(* ---- former finding regions (predicates on INPUTS).  All four defects have been repaired in
+   /repo; the predicates are kept for the refutation theorems about the [_unrepaired]
+   definitions and no longer restrict any theorem about the current code ---- *)
 (* 1 (REPAIRED by 7dd13e1, no longer a region of the current code): the route's host= option
       changed r.Host before addHeaders ran.  Kept for the refutation theorem about
       [serve_host_first_unrepaired]. *)
@@ -53,11 +55,12 @@ Definition F_host_rewrite (t : target) (host : str) : bool :=
       refutation theorem about the unrepaired definitions. *)
 Definition F_capital_websocket (hdr : hmap) : bool :=
   beq (hget hdr K_UPGRADE) (bs "Websocket").
-(* 3: ClientIPHeader is exactly "X-Real-Ip" and the client sent one *)
+(* 3 (REPAIRED by 35aa11b): ClientIPHeader is exactly "X-Real-Ip" and the client sent one *)
 Definition F_cih_xrealip_forged (cfg : config) (hdr : hmap) : bool :=
   beq (c_clientip cfg) K_XRI && negb (sempty (hget hdr K_XRI)).
-(* 4: (requests that do not take the websocket path) the client's Connection header names
-      the managed header [k]: httputil.ReverseProxy deletes it after fabio has set it *)
+(* 4 (REPAIRED by 216337c): (requests that do not take the websocket path) the client's
+      Connection header names the managed header [k]: httputil.ReverseProxy deleted it after
+      fabio had set it; addHeaders now removes such names from Connection *)
 Definition F_conn_lists (hdr : hmap) (k : str) : bool :=
   negb (is_ws hdr) && existsb (fun tok => beq (canon_key tok) k) (conn_tokens hdr).
 
@@ -114,31 +117,25 @@ Definition cl_sts (cfg : config) (tls : bool) (sts : list str) : bool :=
   | _ => false
   end.
 
-(* ---- one observation = the list of (clause holds?, region that explains a failure) ---- *)
-Definition expl (l : list (bool * N)) : option N :=
-  match filter fst l with (_, k) :: _ => Some k | [] => None end.
+(* ---- one observation = the list of (clause holds?, region that explains a failure).
+   No open finding region is left: every explanation is [None], i.e. any failing clause
+   is a violation (the second component is kept so that the driver code in Check is unchanged) ---- *)
 
-(* [xff_here]: X-Forwarded-For is expected at this observation point
-   [plain]: the request went through httputil.ReverseProxy (Connection is acted upon) *)
+(* [xff_here]: X-Forwarded-For is expected at this observation point *)
 Definition clauses (cfg : config) (hdr : hmap) (peer host : str) (tls : bool)
            (xff_here : bool) (up : hmap) : list (bool * option N) :=
-  let conn k := F_conn_lists hdr k in
   let cih := canon_key (c_clientip cfg) in
   [ (* configured client-IP header carries the peer *)
     (sempty (c_clientip cfg) ||
      (if beq cih K_XFF then negb xff_here || negb (wf_hdr hdr) || cl_xff up peer
-      else cl_clientip cfg up peer),
-     expl [(conn cih, 4); (F_cih_xrealip_forged cfg hdr, 3)]);
+      else cl_clientip cfg up peer), None);
     (negb xff_here || negb (wf_hdr hdr) || cl_xff up peer, None);
-    (cl_xri hdr up peer, expl [(conn K_XRI, 4)]);
-    (sempty (c_tlsheader cfg) || cl_tls cfg tls up,
-     expl [(conn (canon_key (c_tlsheader cfg)), 4)]);
-    (negb (fresh hdr) || cl_proto tls up, expl [(conn K_XFP, 4)]);
-    (negb (sempty (hget hdr K_XFPORT)) || cl_port host tls up,
-     expl [(conn K_XFPORT, 4)]);
-    (negb (sempty (hget hdr K_XFH)) || sempty host || cl_host host up,
-     expl [(conn K_XFH, 4)]);
-    (cl_fwd hdr peer tls up, expl [(conn K_FWD, 4)]) ].
+    (cl_xri hdr up peer, None);
+    (sempty (c_tlsheader cfg) || cl_tls cfg tls up, None);
+    (negb (fresh hdr) || cl_proto tls up, None);
+    (negb (sempty (hget hdr K_XFPORT)) || cl_port host tls up, None);
+    (negb (sempty (hget hdr K_XFH)) || sempty host || cl_host host up, None);
+    (cl_fwd hdr peer tls up, None) ].
 
 Definition all_hold (l : list (bool * option N)) : bool := forallb fst l.
 
@@ -149,9 +146,3 @@ Definition failing_region (l : list (bool * option N)) : option N :=
   | (_, r) :: rest =>
       if forallb (fun c => match snd c with Some _ => true | None => false end) rest then r else None
   end.
-
-(* no region applies to this input at all *)
-Definition no_region (cfg : config) (hdr : hmap) : bool :=
-  negb (F_cih_xrealip_forged cfg hdr) &&
-  negb (existsb (F_conn_lists hdr)
-         [canon_key (c_clientip cfg); canon_key (c_tlsheader cfg); K_XRI; K_XFP; K_XFPORT; K_XFH; K_FWD]).
